@@ -187,3 +187,64 @@ def run(ctx, chk):
     extra = set(rows) - set(oracle)
     chk.ob('C13.P4', 'rows:no-unexpected', not extra, where0, 'unexpected outcome classes: %s' % sorted(extra, key=str), nontrivial=False)
     chk.tables['messages'] = {str(k): sorted(map(str, v)) for k, v in rows.items()}
+
+    # ---- P7: configuration reaches the poller: when both PHC options are given main hands the manager Some(PhcInfo) built
+    # from them or refuses to start; it never silently runs without the PHC term
+    mb = common.daemon_main(fb)
+    tmb = common.thread_manager(fb)
+    if mb is None or tmb is None:
+        chk.missing('C13.P7', 'main of the daemon / thread manager')
+    else:
+        chk.saw(mb)
+        ix = [i for i in range(1, tmb.argc + 1) if 'PhcInfo' in tmb.tystr(tmb.locals[i]['ty'])]
+        if not ix:
+            chk.missing('C13.P7', 'PHC configuration parameter of the thread manager')
+        else:
+            ix = ix[0] - 1
+            e7 = common.mk_engine(fb, no_inline=lambda x: x.crate.kind != 'bin')
+            n7 = 0
+            for p in e7.run(mb):
+                if p.kind == 'unreachable':
+                    continue
+                opts = {}
+                for term, op, val, _ in p.conds:
+                    if term[0] == 't' and term[1] == 'discr' and term[2][0][0] == 't' and term[2][0][1] == 'field' and 'phc' in str(term[2][0][2][1]):
+                        some = (op == '==' and val == 1) or (op == '!=' and 0 in val)
+                        opts[str(term[2][0][2][1])] = some
+                for ef in p.effects:
+                    if ef['kind'] == 'call' and ef['callee'] == tmb.path:
+                        n7 += 1
+                        v = ef['args'][ix]
+                        both = len(opts) >= 2 and all(opts.values())
+                        if both:
+                            ok7 = v[0] == 'agg' and v[2] == 'Some' and v[3] and v[3][0][0] == 'agg' and 'PhcInfo' in v[3][0][1]
+                            chk.ob('C13.P7', 'main:phc-options-reach-the-poller', ok7, ef['site'][2],
+                                   'both PHC options given: the manager receives %s' % fmt(v)[:90] +
+                                   ('' if ok7 else ' -- the daemon runs without the PHC error bound although it was configured'))
+                        else:
+                            chk.ob('C13.P7', 'main:no-phc-without-options', v[0] == 'agg' and v[2] == 'None', ef['site'][2],
+                                   'PHC options %s: the manager receives %s' % (opts, fmt(v)[:60]), nontrivial=False)
+            chk.floor('C13.P7', 'main paths reaching the manager', n7, 2)
+    # ---- P8: the reference id given on the command line is packed verbatim: the conversion (&str -> Result<u32, _>) reads the
+    # bytes of its argument itself, not of a trimmed / re-cased / otherwise derived string
+    convs = [b for b in fb.bodies(common.DAEMON) if b.defkind != 'Closure' and b.argc == 1 and b.tystr(b.locals[1]['ty']) == '&str' and
+             b.tystr(b.locals[0]['ty']).startswith('std::result::Result<u32')]
+    for b in convs:
+        chk.saw(b)
+        pn = ('sym', b.debug_names.get(1, 'arg1'))
+        n8 = 0
+        for bb, t, fn in common.user_calls(b):
+            nm = mir.callee_name(fn) if fn else ''
+            if nm.startswith('std::str::') and nm.split('::')[-1] in ('bytes', 'as_bytes', 'chars', 'char_indices', 'bytes_mut'):
+                n8 += 1
+        eng8 = common.mk_engine(fb)
+        for p in eng8.run(b):
+            for ef in p.effects:
+                if ef['kind'] == 'call' and ef['callee'].startswith('std::str::') and ef['callee'].split('::')[-1] in ('bytes', 'as_bytes', 'chars', 'char_indices'):
+                    a0 = ef['args'][0]
+                    src = a0 if a0[0] != 'ref' else eng8.load(p.state, a0[1])
+                    verbatim = a0 == pn or src == pn or (a0[0] == 'ref' and a0[1][0][0] == 'S' and a0[1][0][1] == pn and not a0[1][1])
+                    chk.ob('C13.P8', 'refid:packed-verbatim', verbatim, ef['site'][2],
+                           'the reference id conversion reads the characters of %s%s' % (fmt(a0)[:60], '' if verbatim else
+                           ' -- not of its argument: ids that differ only by the transformation no longer match what chronyd reports'))
+        chk.floor('C13.P8', 'character reads in the reference-id conversion', n8, 1)
